@@ -32,39 +32,52 @@ theorem lowerKw_idem (s : Text) : lowerKw (lowerKw s) = lowerKw s := by
 
 /-! ### strings, paths, scalars, heads: printing is invariant under `norm…` -/
 
-theorem fmtStr_normStr (s : Str) : fmtStr (normStr s) = fmtStr s := by
+theorem fmtStr_normStr (k : Bool) (s : Str) : fmtStr k (normStr k s) = fmtStr k s := by
   obtain ⟨q, raw, val⟩ := s
   cases q <;> simp only [normStr, fmtStr]
-  by_cases h : isReserved (lower raw) = true
-  · simp [h, lowerKw, isReserved_lower_fixed h]
-  · simp [h]
+  cases hl : lowersHere k
+  · simp
+  · by_cases h : isReserved (lower raw) = true
+    · simp [h, hl, lowerKw, isReserved_lower_fixed h]
+    · simp [h, hl]
 
-theorem fmtPath_map_normStr : ∀ p : Path, fmtPath (p.map normStr) = fmtPath p
+theorem fmtPath_map_normStr (k : Bool) : ∀ p : Path, fmtPath k (p.map (normStr k)) = fmtPath k p
   | [] => rfl
   | [s] => by simp [fmtPath, fmtStr_normStr]
   | s :: t :: r => by
-    have ih := fmtPath_map_normStr (t :: r)
+    have ih := fmtPath_map_normStr k (t :: r)
     simp only [List.map_cons] at ih
     simp only [List.map_cons, fmtPath, fmtStr_normStr, ih]
 
-theorem fmtPath_normPath (p : Path) : fmtPath (normPath p) = fmtPath p := fmtPath_map_normStr p
+theorem fmtPath_normPath (k : Bool) (p : Path) : fmtPath k (normPath k p) = fmtPath k p := fmtPath_map_normStr k p
 
 theorem fmtScalar_normScalar (s : Scalar) : fmtScalar (normScalar s) = fmtScalar s := by
   cases s <;> simp [normScalar, fmtScalar, fmtStr_normStr]
 
-theorem fmtSub_norm (sp : Bool) (p : Path) : fmtSub sp (normPath p) = fmtSub sp p := by
+theorem fmtSub_norm (sp : Bool) (p : Path) : fmtSub sp (normPath false p) = fmtSub sp p := by
   simp [fmtSub, fmtPath_normPath]
 
-theorem impPath_normPath_impPath (p : Path) : impPath (normPath (impPath p)) = normPath (impPath p) := by
+theorem impHead_normStr_impHead (s : Str) : impHead (normStr false (impHead s)) = normStr false (impHead s) := by
+  unfold impHead
+  by_cases hq : (FmtKw.rawStringQuotesKeywordCase && lower s.val != s.val && isReserved (lower s.val)) = true
+  · simp [hq, normStr]
+  · simp only [hq, Bool.false_eq_true, if_false, normStr]
+    by_cases hr : (lowersHere false && isReserved (lower s.val)) = true
+    · have hres : isReserved (lower s.val) = true := by
+        simp only [Bool.and_eq_true] at hr; exact hr.2
+      have hfix := isReserved_lower_fixed hres
+      simp [hr, hfix]
+    · simp only [hr, Bool.false_eq_true, if_false]
+      simp only [hq, Bool.false_eq_true, if_false]
+
+theorem impPath_normPath_impPath (p : Path) : impPath (normPath false (impPath p)) = normPath false (impPath p) := by
   cases p with
   | nil => rfl
   | cons s rest =>
     simp only [impPath, normPath, List.map_cons]
-    congr 1
-    unfold normStr
-    by_cases h : isReserved (lower s.val) = true <;> simp [h]
+    rw [impHead_normStr_impHead]
 
-theorem fmtImp_norm (sp : Bool) (p : Path) : fmtImp sp (normPath (impPath p)) = fmtImp sp p := by
+theorem fmtImp_norm (sp : Bool) (p : Path) : fmtImp sp (normPath false (impPath p)) = fmtImp sp p := by
   simp [fmtImp, impPath_normPath_impPath, fmtPath_normPath]
 
 theorem fmtArrowDst_norm (h : Hop) : fmtArrowDst (normHop h) = fmtArrowDst h := by
@@ -190,11 +203,11 @@ theorem isBoard_normL (ind : Nat) (x : N) : isBoard (normL ind x) = isBoardAfter
   | _ => simp [normL, isBoard, isBoardAfter]
 
 /-- on a well-formed key a board keyword survives re-parsing as the same board keyword -/
-theorem normStr_val_of_board {s : Str} (hs : strOk s = true) (hb : boardName s.val = true) : (normStr s).val = s.val := by
+theorem normStr_val_of_board {s : Str} (hs : strOk s = true) (hb : boardName s.val = true) : (normStr true s).val = s.val := by
   obtain ⟨q, raw, val⟩ := s
   cases q <;> simp only [normStr]
   by_cases hr : isReserved (lower raw) = true
-  · simp only [hr, if_true]
+  · simp only [hr, lowersHere, Bool.true_or, Bool.and_self, if_true]
     have hv : val = raw := by
       simp [strOk, hr] at hs
       exact hs.2
@@ -238,23 +251,25 @@ theorem escSq_noNL : ∀ t : Text, hasNL t = false → hasNL (escSq t) = false
     unfold escSq
     split <;> simp [ih, h.1]
 
-theorem fmtStr_noNL {s : Str} (h : strOk s = true) : hasNL (fmtStr s) = false := by
+theorem fmtStr_noNL (k : Bool) {s : Str} (h : strOk s = true) : hasNL (fmtStr k s) = false := by
   obtain ⟨q, raw, val⟩ := s
   simp only [strOk, Bool.and_eq_true, Bool.not_eq_true'] at h
   cases q <;> simp only [fmtStr]
-  · exact lowerKw_noNL h.1.1
+  · split
+    · exact lowerKw_noNL h.1.1
+    · exact h.1.1
   · simp [h.1.1]
   · simp [escSq_noNL _ h.1.2]
 
-theorem fmtPath_noNL : ∀ p : Path, pathOk p = true → hasNL (fmtPath p) = false
+theorem fmtPath_noNL (k : Bool) : ∀ p : Path, pathOk p = true → hasNL (fmtPath k p) = false
   | [], _ => rfl
   | [s], h => by
     simp only [pathOk, List.all_cons, List.all_nil, Bool.and_true] at h
-    simpa [fmtPath] using fmtStr_noNL h
+    simpa [fmtPath] using fmtStr_noNL k h
   | s :: t :: r, h => by
     simp only [pathOk, List.all_cons, Bool.and_eq_true] at h
-    have ih := fmtPath_noNL (t :: r) (by simp [pathOk, h.2])
-    simp [fmtPath, fmtStr_noNL h.1, ih]
+    have ih := fmtPath_noNL k (t :: r) (by simp [pathOk, h.2])
+    simp [fmtPath, fmtStr_noNL k h.1, ih]
 
 theorem fmtScalar_noNL {s : Scalar} (h : scalarOk s = true) : hasNL (fmtScalar s) = false := by
   cases s with
@@ -262,21 +277,21 @@ theorem fmtScalar_noNL {s : Scalar} (h : scalarOk s = true) : hasNL (fmtScalar s
   | susp b => cases b <;> decide
   | bool b => cases b <;> decide
   | num raw => simpa [scalarOk, fmtScalar] using h
-  | str s => exact fmtStr_noNL h
+  | str s => exact fmtStr_noNL false h
 
 theorem spreadDots_noNL (sp : Bool) : hasNL (spreadDots sp) = false := by cases sp <;> decide
 
 theorem fmtSub_noNL {sp : Bool} {p : Path} (h : pathOk p = true) : hasNL (fmtSub sp p) = false := by
-  simp [fmtSub, spreadDots_noNL, fmtPath_noNL p h]
+  simp [fmtSub, spreadDots_noNL, fmtPath_noNL false p h]
 
 theorem fmtImp_noNL {sp : Bool} {p : Path} (h : pathOk (impPath p) = true) : hasNL (fmtImp sp p) = false := by
-  simp [fmtImp, spreadDots_noNL, fmtPath_noNL _ h]
+  simp [fmtImp, spreadDots_noNL, fmtPath_noNL false _ h]
 
 theorem fmtArrowDst_noNL {x : Hop} (h : (!hasNL x.sa && !hasNL x.da && pathOk x.dst) = true) :
     hasNL (fmtArrowDst x) = false := by
   obtain ⟨sa, da, dst⟩ := x
   simp only [Bool.and_eq_true, Bool.not_eq_true'] at h
-  simp only [fmtArrowDst, hasNL_append, hasNL_cons, fmtPath_noNL dst h.2]
+  simp only [fmtArrowDst, hasNL_append, hasNL_cons, fmtPath_noNL true dst h.2]
   split <;> split <;> simp [h.1.1, h.1.2] <;> (split <;> simp [h.1.2])
 
 theorem fmtHops_noNL : ∀ l : List Hop, l.all (fun x => !hasNL x.sa && !hasNL x.da && pathOk x.dst) = true →
